@@ -53,7 +53,48 @@ def controls(ids, ev, props=None):
     return n, bad
 
 
+def mutants(ids, ev):
+    """a refactored tree must still be decided: each `controls/<id>/mutants/<name>.diff` breaks the property on top of the
+    behaviour-preserving refactoring `<id>`; the property's own check has to report it there as well"""
+    cdir = os.path.join(VERIF, "controls")
+    jobs = []
+    for cid in sorted(os.listdir(cdir)) if os.path.isdir(cdir) else []:
+        md = os.path.join(cdir, cid, "mutants")
+        if (ids and cid not in ids) or not os.path.isdir(md): continue
+        for m in sorted(os.listdir(md)):
+            if m.endswith(".diff"): jobs.append((cid, m))
+    def one(cid, m):
+        s = _scratch()
+        try:
+            for patch in (os.path.join(cdir, cid, "patch.diff"), os.path.join(cdir, cid, "mutants", m)):
+                a = subprocess.run(["git", "apply", patch], cwd=s, capture_output=True, text=True)
+                if a.returncode != 0: return cid, m, None
+            rc, rules = _run(cid[:3], s, ev)
+            return cid, m, (rc, rules)
+        finally:
+            shutil.rmtree(s, ignore_errors=True)
+    bad = 0; n = 0
+    from concurrent.futures import ThreadPoolExecutor, as_completed
+    with ThreadPoolExecutor(max_workers=int(os.environ.get("VERIF_JOBS", "6"))) as ex:
+        for fu in as_completed([ex.submit(one, c, m) for c, m in jobs]):
+            cid, m, r = fu.result()
+            if r is None: print("mutant %s/%s: does not apply (skipped)" % (cid, m), flush=True); continue
+            n += 1
+            ok = r[0] != 0 and bool(r[1])
+            print("mutant %-8s %-34s %s" % (cid, m, "detected by %s" % r[1] if ok else "MISSED"), flush=True)
+            bad += not ok
+    return n, bad
+
+
 def selftest(args, tier="quick"):
+    if args and args[0] == "mutants":
+        ev = tempfile.mkdtemp(prefix="vrf-selfev.", dir="/var/tmp")
+        try:
+            n, bad = mutants(args[1:], ev)
+        finally:
+            shutil.rmtree(ev, ignore_errors=True)
+        print("selftest mutants: %d runs, %d missed" % (n, bad))
+        return 1 if bad else 0
     if args and args[0] == "controls":
         ev = tempfile.mkdtemp(prefix="vrf-selfev.", dir="/var/tmp")
         try:
